@@ -6,6 +6,7 @@
    (alias ID RECURSIVE ((KEY TARGET) ...) NAME) -> ID Expanded NAME' | ID Cycle | ID NoEnd
    (unknown ID WHO NAME PAYEEHEX ((START END WORDHEX TARGET) ...)) -> ID Registered NAME' | ID NullDeref
                                          WHO = nopost | noxact | dated; names are ':'-separated words
+   (width ID HEX COLUMNS)             -> ID width=W cut=0/1     (unistring::width as the source adds it up; truncate's test)
    (query ID D K)                     -> ID within | ID over   (K plain terms inside D nested parentheses)
    (div ID (pool (SYMHEX PREC)...) EXPR) -> ID <value as in drv_C03> | ID E:<err>
    (period ID Q N START DATE)         -> ID Ok S | ID Err:<class>
@@ -136,6 +137,10 @@ let handle line =
     (match register_unknown src_unknown_payee_tests_post_and_xact (nm name) maps reg with
      | Registered a -> [id ^ " Registered " ^ show a]
      | NullDeref -> [id ^ " NullDeref"])
+  | L [A "width"; A id; A hex; cols] ->
+    let s = if hex = "-" then [] else str_of_hex hex in
+    [Printf.sprintf "%s width=%s cut=%d" id (string_of_z (ustr_width src_unistring_width_clamps_negative s))
+       (if is_cut src_unistring_width_clamps_negative s (zatom cols) then 1 else 0)]
   | L [A "period"; A id; A q; n; start; date] ->
     (match period_start src_period_zero_guard (quantum_of q) (zatom n) (zatom start) (zatom date) with
      | Ok s -> [id ^ " Ok " ^ string_of_z s]
